@@ -191,7 +191,7 @@ func dependsOnClockFields(v ssa.Value, depth int, seen map[ssa.Value]bool) strin
 func dayEstablished(p *Program, fn *ssa.Function) string {
 	w := NewWalker(p)
 	w.LoopFuel = 3
-	w.Inline = func(f *ssa.Function, d int) bool { return false }
+	w.Inline = typesHelpers(p)
 	args := make([]*Term, len(fn.Params))
 	dayParam := ""
 	for i, prm := range fn.Params {
